@@ -52,6 +52,40 @@ def random_actions(rng, n):
     return acts
 
 
+def structured_actions(rng):
+    """Build / plan-edit cycles in a plausible order, perturbed by swaps, drops and insertions."""
+    seq = []
+    for _ in range(rng.choice([2, 3])):
+        ia, ib = rng.choice(INP["A"] + [None]), rng.choice(INP["B"] + [None])
+        cyc = [{"a": "startP"}] + ([{"a": "static"}] if rng.random() < 0.75 else [])
+        if ia is not None:
+            cyc.append({"a": "define", "s": "A", "inp": ia})
+        if ib is not None:
+            cyc.append({"a": "define", "s": "B", "inp": ib})
+        cyc.append({"a": "finishP", "ok": rng.random() < 0.85})
+        for s_ in ("A", "B"):
+            cyc.append({"a": "start", "s": s_})
+            cyc.append({"a": "succeed" if rng.random() < 0.8 else "fail", "s": s_})
+        if rng.random() < 0.5:
+            # a child runs while the plan is still running
+            i = next(j for j, x in enumerate(cyc) if x["a"] == "finishP")
+            cyc.insert(rng.randrange(i, len(cyc)), cyc.pop(i))
+        if rng.random() < 0.7:
+            cyc.append({"a": "clean"})
+        cyc.append({"a": "pendP"})
+        seq += cyc
+    for _ in range(rng.choice([0, 1, 2, 3])):
+        k = rng.random()
+        i = rng.randrange(len(seq))
+        if k < 0.4 and i + 1 < len(seq):
+            seq[i], seq[i + 1] = seq[i + 1], seq[i]
+        elif k < 0.7:
+            seq.pop(i)
+        else:
+            seq.insert(i, random_actions(rng, 1)[0])
+    return seq
+
+
 def scripted():
     """A full build followed by typical plan edits."""
     build = [{"a": "startP"}, {"a": "static"}, {"a": "define", "s": "A", "inp": ["x"]}, {"a": "define", "s": "B", "inp": ["oa"]},
@@ -213,7 +247,7 @@ def run(report, tier: str, seed: int, prop: str, verbose=False) -> dict:
     rng = random.Random(seed * 37 + 11)
     cases = scripted() if tier == "thorough" else rng.sample(scripted(), 40)
     for _ in range({"quick": 150, "thorough": 3000}[tier]):
-        cases.append(random_actions(rng, rng.choice([10, 16, 24])))
+        cases.append(random_actions(rng, rng.choice([10, 16, 24])) if rng.random() < 0.3 else structured_actions(rng))
     lines = [{"id": i, "acts": acts} for i, acts in enumerate(cases)]
     work = tlc.scratch_dir("vrc-")
     from concurrent.futures import ThreadPoolExecutor
